@@ -8,6 +8,17 @@ def _q(run, quick, thorough):
     return quick if run.tier == "quick" else thorough
 
 
+def read_lines(path):
+    """Lines of an ndjson file; only \\n separates records (str.splitlines would also split on
+    U+0085, U+2028 ... which occur inside recorded error texts)."""
+    with open(path, encoding="utf-8") as f:
+        data = f.read()
+    lines = data.split("\n")
+    if lines and lines[-1] == "":
+        lines.pop()
+    return lines
+
+
 def write_lines(path, items):
     os.makedirs(os.path.dirname(path), exist_ok=True)
     with open(path, "w") as f:
@@ -56,7 +67,7 @@ def detect_stage(run, count, what):
     rejects = 0
     while True:
         r = common.validate_trace("Trace_XtDetect.tla", "Trace_XtDetect.cfg", cur, env=env, tag="XtDetect-%s" % run.pid)
-        for l in r["out"].splitlines():
+        for l in r["out"].split("\n"):
             if l.startswith('<<"DEVIATION"'):
                 d = l.split('"')[3]
                 hit = next((k for k in common.known_findings() if k["property"] == run.pid and k["key"] == d), None)
@@ -69,7 +80,7 @@ def detect_stage(run, count, what):
             break
         rejects += 1
         info = json.loads(common.tlc_printed(r["out"], "REJECTJSON")[0])
-        lines = open(cur).read().splitlines()
+        lines = read_lines(cur)
         n = info["line"]
         start = n
         while start > 1 and '"ev":"input"' not in lines[start - 1]:
@@ -163,7 +174,7 @@ def validate_obs(run, trace, rules, what, max_rejects=6, spec="Trace_XtObs", dev
     while True:
         r = common.validate_trace(spec + ".tla", spec + ".cfg", cur, env=env, tag="%s-%s" % (spec, run.pid))
         devs_seen = set()
-        for l in r["out"].splitlines():
+        for l in r["out"].split("\n"):
             if l.startswith('<<"DEVIATION"'):
                 devs_seen.add(l.split('"')[3])
         for d in devs_seen:
@@ -263,7 +274,7 @@ def c05(run):
     r = common.validate_trace("XtMem.tla", "XtMem.cfg", path, tag="XtMem-C05")
     if not r["accepted"]:
         info = json.loads(common.tlc_printed(r["out"], "REJECTJSON")[0])
-        lines = open(path).read().splitlines()
+        lines = read_lines(path)
         ctx = [json.loads(x) for x in lines[max(0, info["line"] - 3):info["line"]]]
         run.violation("memory: measured run is not a behaviour of XtMem (peak heap exceeds the bound or grows with the stream length): %s" % json.dumps(ctx),
                       {"kind": "xtmem-trace", "records": ctx})
@@ -284,3 +295,42 @@ def c12(run):
                 "bytes a prefix of the fault-free output, whole fault-free frames in order (XtObs rules C12)")
     run.assumptions += OBS_ASSUME + ["faults are persistent and of a kind other than Interrupted (which std retries by contract)"]
     obs_stage(run, "faults", _q(run, 8, 120), ["C12"], "reader fault at every input offset, writer fault at every output offset, short writes; 4 sources x 4 targets")
+
+
+def c11(run):
+    run.rule = ("(1) XtTranscode: each case = (tree of <= 5 nodes, fault plan = the i-th step of the scripted serializer or deserializer fails); "
+                "TLC evaluates the model of stream.rs and exports result + exact step sequence; the harness runs the REAL generic transcoder with scripted serde "
+                "objects failing at that step and compares variant, error identities and step sequence. (2) XtErrText: each case = one failed translation with a "
+                "planted syntax error, an unrepresentable value at a random tree path, or a writer failing at byte k; TLC checks the text rules of C11")
+    mc = run_tlc("MC_XtTranscode.tla", "MC_XtTranscode.cfg", workers=8)
+    check_vacuity(mc, ["Run"])
+    run.add_mc(mc, "XtTranscode: Attribution, UnwrapSafe, NoSyntheticCause for all trees <= 5 nodes x all fault plans")
+    dev = run_tlc("MC_XtTranscode.tla", "MC_XtTranscode_dev.cfg", workers=4, coverage=False)
+    if dev["violated"] is None:
+        raise ToolError("regression model: the pinned-tree variant of serialize_with_seed must violate Attribution, but TLC found no violation")
+    run.stages.append({"stage": "tlc-mc", "what": "regression model of fix 94d5233: with DevSeedCopiesIdleSource=TRUE TLC reports Attribution violated (expected)", "cfg": dev["cfg"]})
+    gen = run_tlc("MC_XtTranscode.tla", "Gen_XtTranscode.cfg", workers=8, coverage=False)
+    cases = tlc_printed(gen["out"], "CASE")
+    path = write_lines(os.path.join(WORK, "cases_transcode_%s.ndjson" % run.tier), cases)
+    summ = run_xtv(["transcode-replay", path], timeout=1200)
+    run.add_harness(summ, "every TLC-evaluated (tree, fault plan) replayed on the real transcoder through scripted serde objects")
+    run.exhaustive = True
+    # end-to-end text rules
+    tpath = os.path.join(WORK, "trace_C11_errtext_%s.ndjson" % run.tier)
+    summ = run_xtv(["record-errtext", tpath, _q(run, 40, 800)], timeout=3000)
+    run.add_harness(summ, "failed translations with one planted defect (syntax error / unrepresentable value at a random path / writer failing at every byte), 4 sources x 4 targets x slice/reader")
+    r = common.validate_trace("XtErrText.tla", "XtErrText.cfg", tpath, tag="XtErrText-C11")
+    cur = tpath
+    n = 0
+    while not r["accepted"] and n < 6:
+        n += 1
+        info = json.loads(common.tlc_printed(r["out"], "REJECTJSON")[0])
+        run.violation("error text breaks the C11 contract (XtErrText!Fail): %s" % json.dumps(info["rec"])[:700], {"kind": "xterrtext", "record": info["rec"]})
+        lines = read_lines(cur)
+        nxt = tpath + ".cut%d" % n
+        open(nxt, "w").write("\n".join(lines[:info["line"] - 1] + lines[info["line"]:]) + "\n")
+        cur = nxt
+        r = common.validate_trace("XtErrText.tla", "XtErrText.cfg", cur, tag="XtErrText-C11")
+    run.add_traces(summ["evaluations"], r, "XtErrText text rules")
+    run.assumptions += ["input-side = the mutated input fails for every streaming target; the serializer's reason = the message minus the synthetic 'translation failed[ at ...]' part",
+                        "rmp-serde does not display the underlying I/O error, so the injected writer text is demanded only of the JSON, YAML and TOML targets"]
